@@ -28,11 +28,14 @@ CONTEXTS = [
     ('\\begin{itemize}\\item ', '\\end{itemize}', True), ('\\begin{uenv}', '\\end{uenv}', True),
     ('% ', '\n', False), ('%%% LT-SKIP-BEGIN\n', '\n%%% LT-SKIP-END\n', False), ('\\LTskip{', '}', False),
     ('\\verb|', '|', False), ('\\begin{verbatim}\n', '\n\\end{verbatim}', False),
+    ('\\begin\n  {verbatim}\n', '\n\\end{verbatim}', False),       # a line break between \begin and the name
 ]
+# contexts that are ordinary text when the special macros and magic comments are switched off (--nosp)
+VISIBLE_NOSP = {7}         # (\\LTskip{..} becomes an ordinary declared macro: listed macros in its argument are outside the model)
 EXTRS = ['input,include', 'input,include,footnote', 'footnote']
 
 
-def build_extr(seq, frame=0):
+def build_extr(seq, frame=0, nosp=False):
     """seq: list of (use index, context index) -> (source, [(listed macro, text)])
     frame 0: text before, between and after the items; 1: the last item ends the text (at most one
     line break behind it); 2: the first item starts the text"""
@@ -46,7 +49,7 @@ def build_extr(seq, frame=0):
         s += before + use + after
         if frame != 1 or k < len(seq) - 1:
             s += ' Wz%sq ' % chr(98 + k)
-        if visible and mac and out:
+        if (visible or (nosp and ci in VISIBLE_NOSP)) and mac and out:
             exp.append((mac, out % w if '%s' in out else out))
     if frame == 1:
         return (s[:-1] if s.endswith('\n') and len(seq) % 2 else s), exp
@@ -117,6 +120,7 @@ class C18:
                 yield ['x', [list(it)], e]
                 yield ['x', [list(it)], e, 1]
                 yield ['x', [list(it)], e, 2]
+                yield ['x', [list(it)], e, 0, 'nosp']
         core_items = [(u, c) for u in (0, 1, 2, 5, 8, 9, 11) for c in (0, 2, 4, 6, 7, 9)]
         for a in items:
             for b in core_items:
@@ -143,11 +147,12 @@ class C18:
 
     def judge_extr(self, case):
         seq, ei = case[1], case[2]
-        src, exp = build_extr(seq, case[3] if len(case) > 3 else 0)
+        nosp = len(case) > 4 and case[4] == 'nosp'
+        src, exp = build_extr(seq, case[3] if len(case) > 3 else 0, nosp)
         extr = EXTRS[ei]
         listed = extr.split(',')
         want = [t for m, t in exp if m in listed]
-        o = impl.run_filter(src, {'pack': '*', 'lang': 'en', 'extr': extr})
+        o = impl.run_filter(src, dict({'pack': '*', 'lang': 'en', 'extr': extr}, **({'nosp': True} if nosp else {})))
         if o.kind != 'ok':
             return {'viol': [{'clause': 'returns', 'sig': 'C18:extr:no-result', 'detail': {'source': src, 'info': o.info}}], 'out': o.info, 'nt': True, 'tr': 1}
         plain = o.result[0]
